@@ -68,6 +68,10 @@ def _on_raise(exc, args, kwargs):
 
 
 def _install(ctx):
+    if _state.get('installed'):
+        _state['ctx'] = ctx
+        return
+    _state['installed'] = True
     import parso.grammar
     _state['ctx'] = ctx
     contracts.install(parso.grammar.Grammar, 'parse', _post, on_raise=_on_raise)
